@@ -74,7 +74,6 @@ def _trace_worker(args):
         rec = T.Recorder(be, objs, gv, git_every)
         T.gen_calls(rng, rec, rng.randint(length // 2, length), T.BIG_VALUES)
         be.close()
-        rec.be_kind = kind
         out.append((T.to_json(tid0 + i, rec, T.BIG_NAMES, T.BIG_VALUES, objs), _strip(rec)))
     shutil.rmtree(sc, ignore_errors=True)
     return out
@@ -84,7 +83,6 @@ class _RecView:
     """What describe() needs from a Recorder, picklable."""
 
     def __init__(self, rec):
-        from ..c16_backends import DictBackend, DiskBackend, ReftableBackend
         self.ev, self.pre, self.objs = rec.ev, rec.pre, None
         self.kind = rec.be.kind
         self.site = rec.be.site
@@ -117,7 +115,9 @@ def phase_models(ctx, pool_tlc):
     }
     if not ctx.quick:
         futs["n3"] = pool_tlc.submit(tlc.run, "RefMapFiles.tla", "RefMapFiles_n3.cfg", workers=2, timeout=1200)
-        futs["n5"] = pool_tlc.submit(tlc.run, "RefMapFiles.tla", "RefMapFiles_n5.cfg", workers=8, timeout=3000)
+        # five names: too large to enumerate within the budget (> 10^7 transitions) -> random simulation, depth 30
+        futs["sim5"] = pool_tlc.submit(tlc.run, "RefMapFiles.tla", "RefMapFiles_n5.cfg", workers=4, timeout=1500,
+                                       simulate="num=6000", depth=30, seed=ctx.seed + 1)
     for name, _ in NEG_CONTROLS:
         futs["neg:" + name] = pool_tlc.submit(tlc.run, "RefMapFiles.tla", f"RefMapFiles_neg_{name}.cfg", workers=2, timeout=600)
     return futs, dot, graph_cfg
@@ -136,6 +136,12 @@ def collect_models(ctx, futs, graph_cfg):
                 raise MachineryError(f"negative control {name} did not violate {expect}\n{res.output[-2000:]}")
         elif key == "seq":
             ctx.add_tlc("RefMapSeq_n5 (5 names, 2 values: TypeOK, CollisionFree, Contract)", res)
+        elif key == "sim5":
+            m = re.search(r"Progress: (\d+) states checked, (\d+) traces generated", res.output)
+            if m is None or re.search(r"^Error:", res.output, re.M) or violated(res):
+                raise MachineryError(f"simulation of RefMapFiles_n5 failed\n{res.output[-2000:]}")
+            res.generated, res.ok, res.completed = int(m.group(1)), True, True
+            ctx.add_tlc(f"RefMapFiles_n5 simulation ({m.group(2)} behaviours of depth <= 30: invariants, RefinesFast, ContractF)", res)
         else:
             ctx.add_tlc(f"RefMapFiles {key} (refinement of RefMapSeq, CollisionFree, ObsOK, FsOK)", res)
 
@@ -280,7 +286,10 @@ def run(ctx):
         "beyond it: random traces",
         "reflog, worktree-specific refs, NamespacedRefsContainer and concurrent use are outside this check (C08 covers concurrency)",
     ]
-    return ctx.finish(exhaustive=bool(exhaustive and not ctx.quick and False))
+    # every transition of the configured state graph was replayed (if `exhaustive`), but the larger universes are
+    # sampled (random traces, simulation, sampled long names): the run as a whole is not exhaustive
+    ctx.cov["graph_replay"]["every_transition_executed"] = bool(exhaustive)
+    return ctx.finish(exhaustive=False)
 
 
 def replay(ctx, path):
